@@ -188,6 +188,59 @@ func cname(fn *ssa.Function) string {
 	return o.Name()
 }
 
+// canonRecv: the receiver the rules know for a method that moved to another receiver type (see renameMap, second tier).
+var canonRecv = map[*ssa.Function]string{}
+
+// bkey: the baseline key of a current function (renames and moves undone).
+func bkey(fn *ssa.Function) string {
+	pkg, recv, _ := funcKey(fn)
+	if r, ok := canonRecv[origin(fn)]; ok {
+		recv = r
+	}
+	return pkg + "|" + recv + "|" + cname(fn)
+}
+
+// movedParamTypes: baseline parameter types (receiver first) against the current ones: the same multiset, or the
+// baseline's receiver alone dropped (a method that never used its receiver moved onto the type of one of its parameters).
+func movedParamTypes(base baseFunc, fn *ssa.Function) bool {
+	if len(base.PTypes) == 0 || len(base.PTypes) != len(base.Params) {
+		return false
+	}
+	count := map[string]int{}
+	for _, p := range fn.Params {
+		count[ptypeString(p)]++
+	}
+	want := base.PTypes
+	switch len(want) - len(fn.Params) {
+	case 0:
+		if fn.Signature.Recv() != nil && len(want) > 0 && ptypeString(fn.Params[0]) != want[0] {
+			// a method handed over to another owner (a new state object): receiver for receiver, the rest unchanged
+			count[ptypeString(fn.Params[0])]--
+			want = want[1:]
+		}
+	case 1:
+		want = want[1:]
+	default:
+		return false
+	}
+	for _, t := range want {
+		count[t]--
+	}
+	for _, n := range count {
+		if n != 0 {
+			return false
+		}
+	}
+	return true
+}
+
+func resultTypes(sig string) string {
+	if i := strings.LastIndex(sig, ")("); i >= 0 {
+		return sig[i+1:]
+	}
+	return sig
+}
+
 func (P *Program) renameMap() *renameInfo {
 	if ri, ok := renames[P]; ok {
 		return ri
@@ -235,6 +288,40 @@ func (P *Program) renameMap() *renameInfo {
 			canonNames[origin(novel[best])] = parts[2]
 			used[best] = true
 			ri.notes = append(ri.notes, fmt.Sprintf("%s is now %s (same signature, callee similarity %.2f)", m, best, bestScore))
+		}
+	}
+	// second tier: a method that moved to another receiver (or became / stopped being a method) in the same package:
+	// the same parameter types counting the receiver (the baseline's receiver may be dropped), the same results, a
+	// similar callee set; unique or unresolved.
+	for _, m := range missing {
+		if _, done := ri.aliases[m]; done {
+			continue
+		}
+		parts := strings.SplitN(m, "|", 3)
+		base := baselineFuncs[m]
+		best, bestScore, ties := "", -1.0, 0
+		for k, fn := range novel {
+			kp := strings.SplitN(k, "|", 3)
+			if used[k] || kp[0] != parts[0] || kp[1] == parts[1] || resultTypes(sigString(fn)) != resultTypes(base.Sig) || !movedParamTypes(base, origin(fn)) {
+				continue
+			}
+			var bc []string
+			for _, c := range base.Callees { // the closures of the function carry its old name
+				bc = append(bc, strings.Replace(c, "."+parts[2]+"$", "."+kp[2]+"$", 1))
+			}
+			sc := jaccard(bc, calleeNames(fn))
+			if sc > bestScore {
+				best, bestScore, ties = k, sc, 1
+			} else if sc == bestScore {
+				ties++
+			}
+		}
+		if best != "" && ties == 1 && bestScore >= 0.5 {
+			ri.aliases[m] = novel[best]
+			canonNames[origin(novel[best])] = parts[2]
+			canonRecv[origin(novel[best])] = parts[1]
+			used[best] = true
+			ri.notes = append(ri.notes, fmt.Sprintf("%s is now %s (moved: same parameter and result types, callee similarity %.2f)", m, best, bestScore))
 		}
 	}
 	// fields
@@ -356,10 +443,35 @@ func paramPerm(fn *ssa.Function) []int {
 		return nil
 	}
 	loadBaseline()
-	pkg, recv, _ := funcKey(fn)
-	b, ok := baselineFuncs[pkg+"|"+recv+"|"+cname(fn)]
+	b, ok := baselineFuncs[bkey(fn)]
 	if !ok || len(b.PTypes) != len(b.Params) {
 		return nil
+	}
+	if _, moved := canonRecv[fn]; moved && len(fn.Params) == len(b.Params) && len(fn.Params) > 0 && fn.Signature.Recv() != nil && ptypeString(fn.Params[0]) != b.PTypes[0] {
+		// receiver for receiver, the remaining parameters matched by type
+		rest := baseFunc{Params: b.Params[1:], PTypes: b.PTypes[1:]}
+		restFn := *fn
+		restFn.Params = fn.Params[1:]
+		sub := matchParams(rest, &restFn)
+		if sub == nil {
+			return nil
+		}
+		perm = []int{0}
+		for _, j := range sub {
+			perm = append(perm, j+1)
+		}
+		return perm
+	}
+	if _, moved := canonRecv[fn]; moved && len(fn.Params)+1 == len(b.Params) {
+		// the baseline's receiver was dropped: the remaining parameters are matched by type (by name, then order, within
+		// a type); position 0 maps to nothing
+		rest := baseFunc{Params: b.Params[1:], PTypes: b.PTypes[1:]}
+		sub := matchParams(rest, fn)
+		if sub == nil {
+			return nil
+		}
+		perm = append([]int{-1}, sub...)
+		return perm
 	}
 	if len(fn.Params) > len(b.Params) {
 		// parameters were added (a value the helper used to compute is now handed in): the known ones are found by
@@ -385,6 +497,13 @@ func paramPerm(fn *ssa.Function) []int {
 		perm = out
 		return perm
 	}
+	perm = matchParams(b, fn)
+	return perm
+}
+
+// matchParams: baseline positions -> current positions for parameter lists of equal length and equal type multisets.
+func matchParams(b baseFunc, fn *ssa.Function) []int {
+	var perm []int
 	if len(b.Params) != len(fn.Params) {
 		return nil
 	}
@@ -444,6 +563,9 @@ func paramPerm(fn *ssa.Function) []int {
 // bparam: the parameter at the position the rules know.
 func bparam(fn *ssa.Function, i int) *ssa.Parameter {
 	if perm := paramPerm(fn); perm != nil && i < len(perm) {
+		if perm[i] < 0 {
+			return noParam
+		}
 		return fn.Params[perm[i]]
 	}
 	if i < 0 || i >= len(fn.Params) {
@@ -454,7 +576,9 @@ func bparam(fn *ssa.Function, i int) *ssa.Parameter {
 
 var noParam = &ssa.Parameter{}
 
-// bargs reorders the actual arguments of a call of callee (receiver included iff withRecv) into baseline order.
+// bargs reorders the actual arguments of a call of callee into baseline order. args holds the current arguments, the
+// current receiver included iff withRecv; the result holds the baseline's arguments, the baseline's receiver included
+// iff withRecv (a dropped parameter is the zero T).
 func bargs[T any](callee *ssa.Function, args []T, withRecv bool) []T {
 	if callee == nil {
 		return args
@@ -463,23 +587,41 @@ func bargs[T any](callee *ssa.Function, args []T, withRecv bool) []T {
 	if perm == nil {
 		return args
 	}
-	off := 0
-	if !withRecv && origin(callee).Signature.Recv() != nil {
-		off = 1
+	o := origin(callee)
+	curOff, baseOff := 0, 0
+	if !withRecv {
+		if o.Signature.Recv() != nil {
+			curOff = 1
+		}
+		if baselineHasRecv(o) {
+			baseOff = 1
+		}
 	}
-	if len(args)+off < len(perm) {
+	if len(perm) < baseOff {
 		return args
 	}
 	// (with added parameters: the arguments of the known ones, in the order the rules know)
-	out := make([]T, len(perm)-off)
+	out := make([]T, len(perm)-baseOff)
 	for i := range out {
-		j := perm[i+off] - off
+		if perm[i+baseOff] < 0 {
+			continue
+		}
+		j := perm[i+baseOff] - curOff
 		if j < 0 || j >= len(args) {
 			return args
 		}
 		out[i] = args[j]
 	}
 	return out
+}
+
+// baselineHasRecv: the function was a method on the pinned tree (it is one now, unless it moved).
+func baselineHasRecv(fn *ssa.Function) bool {
+	fn = origin(fn)
+	if r, ok := canonRecv[fn]; ok {
+		return r != ""
+	}
+	return fn.Signature.Recv() != nil
 }
 
 // pname returns the name of a parameter as the rules' terms know it: renaming or reordering the parameters (or the
@@ -493,10 +635,9 @@ func pname(p *ssa.Parameter) string {
 	if perm == nil {
 		return p.Name()
 	}
-	pkg, recv, _ := funcKey(fn)
-	b := baselineFuncs[pkg+"|"+recv+"|"+cname(fn)]
+	b := baselineFuncs[bkey(fn)]
 	for i, j := range perm {
-		if fn.Params[j] == p {
+		if j >= 0 && fn.Params[j] == p {
 			return b.Params[i]
 		}
 	}
@@ -543,8 +684,7 @@ func baselineFieldType(pkgSuffix, typeName, field string) string {
 // baselineHasParam: the function had a parameter of that name on the pinned tree.
 func baselineHasParam(fn *ssa.Function, name string) bool {
 	loadBaseline()
-	pkg, recv, _ := funcKey(fn)
-	b, ok := baselineFuncs[pkg+"|"+recv+"|"+cname(fn)]
+	b, ok := baselineFuncs[bkey(fn)]
 	if !ok {
 		return false
 	}
